@@ -384,6 +384,37 @@ func (ex *Exec) binop(fr *Frame, x *ssa.BinOp, st *State, cur *smt.Term) *smt.Te
 		cur = c.And(cur, ok)
 		set(ex.goMod(a.Tm, b.Tm, uns))
 	case token.AND, token.OR, token.XOR, token.AND_NOT:
+		_, aLit := a.Tm.IntVal()
+		_, bLit := b.Tm.IntVal()
+		if !aLit && !bLit && fr.top && fr.fc != nil && fr.fc.BitWidth > 0 {
+			// cheap exact case: one operand is a multiple of 2^k and the other lies below 2^k (disjoint bits)
+			if x.Op == token.OR || x.Op == token.XOR {
+				for _, pr := range [][2]*smt.Term{{a.Tm, b.Tm}, {b.Tm, a.Tm}} {
+					if k := pow2Multiple(pr[0]); k > 0 {
+						rng := c.And(c.Le(c.IntLit(0), pr[0]), c.Le(c.IntLit(0), pr[1]), c.Lt(pr[1], c.BigLit(pow2(uint(k)))))
+						ex.oblige("bitrange", ex.anchor(fr, x, x.Pos()), cur, rng, x.Pos(), fr.prefix)
+						cur = c.And(cur, rng)
+						set(c.Add(a.Tm, b.Tm))
+						return cur
+					}
+				}
+			}
+			w := uint(fr.fc.BitWidth)
+			lim := c.BigLit(pow2(w))
+			rng := c.And(c.Le(c.IntLit(0), a.Tm), c.Lt(a.Tm, lim), c.Le(c.IntLit(0), b.Tm), c.Lt(b.Tm, lim))
+			ex.oblige("bitrange", ex.anchor(fr, x, x.Pos()), cur, rng, x.Pos(), fr.prefix)
+			cur = c.And(cur, rng)
+			saved, had := ex.bitsDecl["!force"]
+			ex.bitsDecl["!force"] = int(w)
+			r, _ := ex.bitop(x.Op.String(), a.Tm, b.Tm, t)
+			if had {
+				ex.bitsDecl["!force"] = saved
+			} else {
+				delete(ex.bitsDecl, "!force")
+			}
+			set(r)
+			return cur
+		}
 		r, ok := ex.bitop(x.Op.String(), a.Tm, b.Tm, t)
 		if !ok {
 			ex.note(ex.Abstr, "bitop-symbolic:"+typeKey(t))
@@ -650,4 +681,51 @@ func (ex *Exec) makeClosure(fr *Frame, x *ssa.MakeClosure, st *State) Val {
 		ex.assume(c.Eq(c.App(bn, smt.Int, tm), a))
 	}
 	return Val{T: x.Type(), Tm: tm}
+}
+
+// pow2Multiple returns the largest k such that t is syntactically a multiple of 2^k (0 if unknown).
+func pow2Multiple(t *smt.Term) int {
+	if n, ok := t.IntVal(); ok {
+		if n.Sign() == 0 {
+			return 62
+		}
+		k := 0
+		for n.Bit(k) == 0 && k < 62 {
+			k++
+		}
+		return k
+	}
+	if t.Kind != smt.KApp {
+		return 0
+	}
+	switch t.Op {
+	case "*":
+		if len(t.Args) == 2 {
+			return pow2Multiple(t.Args[0]) + pow2MultipleLit(t.Args[1]) + pow2MultipleNonLit(t.Args[0], t.Args[1])
+		}
+	case "+":
+		k := 1 << 30
+		for _, a := range t.Args {
+			if ka := pow2Multiple(a); ka < k {
+				k = ka
+			}
+		}
+		return k
+	}
+	return 0
+}
+
+func pow2MultipleLit(t *smt.Term) int {
+	if _, ok := t.IntVal(); ok {
+		return pow2Multiple(t)
+	}
+	return 0
+}
+
+func pow2MultipleNonLit(a, b *smt.Term) int {
+	// a*b with a non-literal b contributes b's own factor (a's was counted by the caller)
+	if _, ok := b.IntVal(); ok {
+		return 0
+	}
+	return pow2Multiple(b)
 }
